@@ -25,6 +25,7 @@ int gh_replies; qstr gh_reply_id; qstr gh_reply_to; int gh_reply_type; int gh_re
 static inline void ev_emit(const QXmppIq *q) { if (gh_replies < 1000) gh_replies++; gh_reply_id = q->id; gh_reply_to = q->to; gh_reply_type = q->type; gh_reply_cond = q->err_cond; gh_reply_has_err = q->has_err; }
 int gh_signals;                                                                           /* Qt signal emissions (receivers are application code) */
 static inline void ev_signal(void) { if (gh_signals < 1000) gh_signals++; }
+bool gh_link_encrypted; int gh_cfg_security_mode;   /* socket()->isEncrypted(), configuration().streamSecurityMode() */
 qstr gh_cfg_jidBare;                                                                      /* client()->configuration().jidBare() */
 
 /* ---- the specification's vocabulary (property statement) */
